@@ -419,8 +419,7 @@ public:
       r.kv("no", tryVal([&]() { return cg.getNumberOfOutgoingNeighbors(n); }));
       r.kv("ni", tryVal([&]() { return cg.getNumberOfIncomingNeighbors(n); }));
       long lf = tryVal([&]() { return cg.isLeaf(n) ? 1 : 0; });
-      if (lf == RAISED) r.kv("leaf", lf);
-      else r.kv("leaf", lf == 1);
+      r.kv("leaf", lf); // 1 / 0, -2 = raised (always an integer)
       nt.add(r.j());
     }
     s.kv("nt", nt);
@@ -601,8 +600,7 @@ public:
         r.kv("oe", arr(tryList([&]() { return sortedLV(c.getOutgoingEdges(ui)); })));
         r.kv("ie", arr(tryList([&]() { return sortedLV(c.getIncomingEdges(ui)); })));
         long lf2 = tryVal([&]() { return c.isLeaf(ui) ? 1 : 0; });
-        if (lf2 == RAISED) r.kv("leaf", lf2);
-        else r.kv("leaf", lf2 == 1);
+        r.kv("leaf", lf2); // 1 / 0, -2 = raised (always an integer)
         ix.add(r.j());
       }
       w.kv("ix", ix);
@@ -631,8 +629,7 @@ public:
       r.kv("cie", arr(live ? tryList([&]() { return drainE(c.incomingEdgesIterator(p), k); }) : bad));
       r.kv("deg", tryVal([&]() { return c.getDegree(p); }));
       long lf = tryVal([&]() { return c.isLeaf(p) ? 1 : 0; });
-      if (lf == RAISED) r.kv("leaf", lf);
-      else r.kv("leaf", lf == 1);
+      r.kv("leaf", lf); // 1 / 0, -2 = raised (always an integer)
       nt.add(r.j());
     }
     w.kv("nt", nt);
